@@ -180,19 +180,10 @@ func c10CheckTyped(c *Ctx, b *c10Batch, ctor string, arg uint64, tok jsontext.To
 	wantF := fmt.Sprintf("%d %s", math.Float64bits(f64), rangeIf(math.IsInf(f64, 0)))
 	wantF32 := fmt.Sprintf("%d %s", math.Float32bits(f32), rangeIf(math.IsInf(float64(f32), 0)))
 	if gotI != wantI {
-		kind := "typed-token-value"
-		// signature of the known boundary defect: an integral float beyond the range, saturated but reported without error
-		if (ctor == "f" || ctor == "F") && strings.HasSuffix(wantI, " range") && gotI == strings.TrimSuffix(wantI, " range")+" none" {
-			kind = "typed-float-saturated-without-error"
-		}
-		viol(kind, "Int", map[string]any{"got": gotI, "want": wantI})
+		viol("typed-token-value", "Int", map[string]any{"got": gotI, "want": wantI})
 	}
 	if gotU != wantU {
-		kind := "typed-token-value"
-		if (ctor == "f" || ctor == "F") && strings.HasSuffix(wantU, " range") && gotU == strings.TrimSuffix(wantU, " range")+" none" {
-			kind = "typed-float-saturated-without-error"
-		}
-		viol(kind, "Uint", map[string]any{"got": gotU, "want": wantU})
+		viol("typed-token-value", "Uint", map[string]any{"got": gotU, "want": wantU})
 	}
 	if gotF != wantF {
 		viol("typed-token-value", "Float", map[string]any{"got": gotF, "want": wantF})
